@@ -1,5 +1,6 @@
 import LopdfModel.Model.Read
 import LopdfModel.Thm.C03
+import LopdfModel.Thm.C08
 /-
   C07 — incremental updates.
   * `merge_get`, `chain_latest_wins` : for ANY chain of cross-reference sections (any length,
@@ -8,9 +9,10 @@ import LopdfModel.Thm.C03
   * `incr_prefix` : an incremental save emits the previously loaded bytes unchanged as a prefix.
   * `incr_shape_table` / `incr_shape_stream` : after the prefix come only the new revision's
     objects, a cross-reference section for them, and `startxref` pointing at that section.
-  * `objstm_older_container_wins` : counter-witness (finding F-C07-a) — when the same object
-    number is stored in object streams of two revisions, the member of the container that is
-    processed first wins, not the one the newest cross-reference section names.
+  * `objstm_xref_container_wins` : when an object number is stored in object streams of several
+    revisions, the loaded object is the member of the container that the (merged, newest-wins)
+    cross-reference table names — for every arrival order of the blocks. `objstm_latest_wins_example`
+    is the former counter-witness of finding F-C07-a (repaired by lopdf commit 943080b).
 -/
 namespace Lopdf
 open Gen
@@ -117,12 +119,118 @@ theorem incr_prefix (prev : Bytes) (d : SDoc) (out : Bytes) (d' : SDoc)
   unfold saveIncr at h
   exact List.IsPrefix.trans (List.prefix_append _ _) (saveFrom_prefix _ d out d' h)
 
-/-- counter-witness for "latest revision wins" with object streams (finding F-C07-a): object 3
-is stored in container 9 (old revision, value 1) and in container 12 (new revision, value 2);
-the reader merges blocks in container order and never replaces, so the OLD value survives. -/
-theorem objstm_older_container_wins :
-    (match (mergeBlocks [] [((9, 0), [((3, 0), Obj.int 1)]), ((12, 0), [((3, 0), Obj.int 2)])]).get (3, 0) with
-     | some (.plain (.int i)) => i
-     | _ => 0) = 1 := by decide
+/-! ### object streams: the container named by the cross-reference table wins -/
+
+theorem firstGet_filter (l : List (ObjId × Obj)) (id : ObjId) (f : ObjId × Obj → Bool) (g : Bool)
+    (h : ∀ p ∈ l, p.1 = id → f p = g) :
+    firstGet (l.filter f) id = if g then firstGet l id else none := by
+  induction l with
+  | nil => cases g <;> simp [firstGet]
+  | cons p rest ih =>
+    obtain ⟨i, o⟩ := p
+    have ih' := ih (fun q hq => h q (List.mem_cons_of_mem _ hq))
+    by_cases hi : i = id
+    · have hf := h (i, o) List.mem_cons_self hi
+      subst hi
+      cases g
+      · rw [List.filter_cons_of_neg (by simp [hf])]; simpa using ih'
+      · rw [List.filter_cons_of_pos (by simp [hf])]; simp [firstGet]
+    · cases hfp : f (i, o)
+      · rw [List.filter_cons_of_neg (by simp [hfp]), ih']; simp [firstGet, hi]
+      · rw [List.filter_cons_of_pos (by simp [hfp])]; simp only [firstGet, hi, if_false]; exact ih'
+
+/-- the member `id` of the block that the cross-reference table lists under number `c` -/
+def memberOf (blocks : List Block) (c : Nat) (id : ObjId) : Option Obj :=
+  (blocks.find? (fun b => b.1 == c)).bind (fun b => firstGet b.2 id)
+
+theorem filtered_block (x : XTable) (b : Block) (id : ObjId) (c i : Nat)
+    (hx : x.get id.1 = some (.compressed c i)) :
+    firstGet (filterBlock x b).2 id = if c == b.1 then firstGet b.2 id else none := by
+  unfold filterBlock
+  apply firstGet_filter
+  intro p _ hp
+  simp [xrefAllows, hp, hx]
+
+theorem findSome_filtered (x : XTable) (id : ObjId) (c i : Nat)
+    (hx : x.get id.1 = some (.compressed c i)) (L : List Block) (hd : DistinctKeys L) :
+    ((L.map (filterBlock x)).map (·.2)).findSome? (fun b => firstGet b id) = memberOf L c id := by
+  induction L with
+  | nil => simp [memberOf]
+  | cons b rest ih =>
+    have hd' : DistinctKeys rest := by
+      unfold DistinctKeys at hd ⊢; exact (List.nodup_cons.mp hd).2
+    simp only [List.map_cons, List.findSome?_cons]
+    rw [filtered_block x b id c i hx, ih hd']
+    by_cases hc : b.1 = c
+    · -- this is the named container; no later block has its number
+      have hnone : memberOf rest c id = none := by
+        unfold memberOf
+        have : rest.find? (fun b => b.1 == c) = none := by
+          rw [List.find?_eq_none]
+          intro b' hb' hk
+          simp only [beq_iff_eq] at hk
+          unfold DistinctKeys at hd
+          exact (List.nodup_cons.mp hd).1 (List.mem_map.mpr ⟨b', hb', by show b'.1 = b.1; rw [hk, hc]⟩)
+        rw [this]; rfl
+      rw [hnone]
+      subst hc
+      have hm : memberOf (b :: rest) b.1 id = firstGet b.2 id := by simp [memberOf, List.find?_cons]
+      rw [hm]
+      cases firstGet b.2 id <;> simp
+    · have hc' : ¬ c = b.1 := fun h => hc h.symm
+      have hm : memberOf (b :: rest) c id = memberOf rest c id := by simp [memberOf, List.find?_cons, hc]
+      rw [hm]
+      simp [hc']
+
+theorem find_key_perm {L₁ L₂ : List Block} (hp : L₁.Perm L₂) (hd : DistinctKeys L₁) (c : Nat) :
+    L₁.find? (fun b => b.1 == c) = L₂.find? (fun b => b.1 == c) := by
+  cases h1 : L₁.find? (fun b => b.1 == c) with
+  | none =>
+    rw [List.find?_eq_none] at h1
+    symm
+    rw [List.find?_eq_none]
+    intro b hb
+    exact h1 b (hp.symm.subset hb)
+  | some a =>
+    have ha := List.mem_of_find?_eq_some h1
+    have hka := List.find?_some h1
+    cases h2 : L₂.find? (fun b => b.1 == c) with
+    | none =>
+      rw [List.find?_eq_none] at h2
+      exact absurd hka (h2 a (hp.subset ha))
+    | some b =>
+      have hb := hp.symm.subset (List.mem_of_find?_eq_some h2)
+      have hkb := List.find?_some h2
+      simp only [beq_iff_eq] at hka hkb
+      rw [eq_of_key_eq hd ha hb (by rw [hka, hkb])]
+
+/-- **Latest revision wins, object streams.** If the (merged, newest-wins — `chain_latest_wins`)
+cross-reference table places object `id` in the container listed under number `c`, then — in
+whatever order the containers' blocks arrive — the loaded object is the one read directly (if the
+object pass produced one) and otherwise THE MEMBER OF CONTAINER `c`; members of the same number
+in containers of older revisions are never used. -/
+theorem objstm_xref_container_wins (x : XTable) (os : LObjects) (arrived : List Block) (id : ObjId)
+    (c i : Nat) (hx : x.get id.1 = some (.compressed c i)) (hd : DistinctKeys arrived) :
+    (mergeBlocksX x os arrived).get id
+      = (os.get id).orElse (fun _ => (memberOf arrived c id).map LObj.plain) := by
+  unfold mergeBlocksX
+  rw [mergeBlocks_get, firstGet_flatten]
+  have hds : DistinctKeys (sortBlocks arrived) := by
+    unfold DistinctKeys at hd ⊢
+    exact ((sortBlocks_perm arrived).map (·.1)).nodup_iff.mpr hd
+  rw [findSome_filtered x id c i hx _ hds]
+  unfold memberOf
+  rw [find_key_perm (sortBlocks_perm arrived) hds c]
+
+/-- the former counter-witness of finding F-C07-a: object 3 is a member of container 9 (old
+revision, value 1) and of container 12 (new revision, value 2), and the newest cross-reference
+section names container 12: the NEW value is loaded, in both arrival orders. -/
+theorem objstm_latest_wins_example :
+    let x : XTable := [(3, .compressed 12 0), (9, .normal 100 0), (12, .normal 300 0)]
+    let b9 : Block := (9, [((3, 0), Obj.int 1)])
+    let b12 : Block := (12, [((3, 0), Obj.int 2)])
+    (match (mergeBlocksX x [] [b9, b12]).get (3, 0) with | some (.plain (.int i)) => i | _ => 0) = 2 ∧
+    (match (mergeBlocksX x [] [b12, b9]).get (3, 0) with | some (.plain (.int i)) => i | _ => 0) = 2 := by
+  decide
 
 end Lopdf
